@@ -17,7 +17,7 @@ TraceAdvance(t) ==
     /\ \A e \in Elems : ~Due(e)
     /\ \A e \in Elems : st[e] = "sleeping" => slotAt[e] >= t
     /\ now' = t
-    /\ UNCHANGED <<arrived, st, slotAt, arrAt, next, delivered, busy, rc, fired, emitDone, up>>
+    /\ UNCHANGED <<arrived, st, slotAt, arrAt, next, delivered, busy, rc, fired, emitDone, up, upOuter>>
 
 Event(ev) ==
     CASE ev.ev = "Arrive" -> Arrive(ev.e)
